@@ -1,6 +1,7 @@
 package main
 
 import (
+	"hash/fnv"
 	"errors"
 	"fmt"
 	"math"
@@ -62,7 +63,8 @@ func filterFunc(name string, rec *recorder) func(interface{}) (interface{}, erro
 		"id": func(v interface{}) (interface{}, error) { return v, nil },
 	}[name]
 	if body == nil {
-		panic("unknown filter function " + name)
+		// a name of the aggregate library registered as a filter function: always fails
+		body = func(v interface{}) (interface{}, error) { return nil, errLib }
 	}
 	return func(v interface{}) (interface{}, error) {
 		if rec != nil {
@@ -103,7 +105,8 @@ func aggFunc(name string, rec *recorder) func([]interface{}) (interface{}, error
 		},
 	}[name]
 	if body == nil {
-		panic("unknown aggregate function " + name)
+		// a name of the filter library registered as an aggregate function: always fails
+		body = func(l []interface{}) (interface{}, error) { return nil, errLib }
 	}
 	return func(l []interface{}) (interface{}, error) {
 		if rec != nil {
@@ -117,16 +120,41 @@ func aggFunc(name string, rec *recorder) func([]interface{}) (interface{}, error
 	}
 }
 
+// cfgOrder varies the order in which a Config is filled (the result must not depend on it, except that
+// a name registered as both kinds resolves to the filter function): 0 = filters, aggregates, accessor;
+// 1 = accessor first; 2 = accessor between the two kinds.  Set per case from a hash of its id.
+var cfgOrder = 0
+
 func makeConfig(filters, aggs []string, acc bool, rec *recorder) jsonpath.Config {
 	cfg := jsonpath.Config{}
-	for _, f := range filters {
-		cfg.SetFilterFunction(f, filterFunc(f, rec))
+	setF := func() {
+		for _, f := range filters {
+			cfg.SetFilterFunction(f, filterFunc(f, rec))
+		}
 	}
-	for _, a := range aggs {
-		cfg.SetAggregateFunction(a, aggFunc(a, rec))
+	setA := func() {
+		for _, a := range aggs {
+			cfg.SetAggregateFunction(a, aggFunc(a, rec))
+		}
 	}
-	if acc {
-		cfg.SetAccessorMode()
+	setAcc := func() {
+		if acc {
+			cfg.SetAccessorMode()
+		}
+	}
+	switch cfgOrder % 3 {
+	case 1:
+		setAcc()
+		setF()
+		setA()
+	case 2:
+		setF()
+		setAcc()
+		setA()
+	default:
+		setF()
+		setA()
+		setAcc()
 	}
 	return cfg
 }
@@ -403,12 +431,20 @@ func ambientHistory() {
 		if k%5 == 0 {
 			jsonpath.Retrieve("$[?(@.s == 'a\\tb')]", []interface{}{map[string]interface{}{"s": "atb"}})
 		}
+		if k%2 == 1 {
+			// a rejected path in accessor mode with functions: nothing of it may reach the next call
+			cfg := makeConfig([]string{"twice"}, []string{"cnt"}, true, nil)
+			jsonpath.Parse(ambientFailing[(k/2)%len(ambientFailing)], cfg)
+		}
 	}()
 }
 
 // ---------- one case ----------
 
 func runCase(c *caseT) string {
+	h := fnv.New32a()
+	h.Write([]byte(c.ID))
+	cfgOrder = int(h.Sum32() % 3)
 	switch c.Mode {
 	case "hist":
 		return runHist(c)
@@ -416,6 +452,8 @@ func runCase(c *caseT) string {
 		return runConc(c)
 	case "cold":
 		return runCold(c)
+	case "coldhist":
+		return runColdHist(c)
 	}
 	var b strings.Builder
 	b.WriteString(c.ID)
